@@ -1,2 +1,175 @@
--- stub: replaced by the C10 driver
-def main : IO Unit := pure ()
+/-
+  Driver.C10 — sequential specs of the shared collections and the mutex-object machine, on lines.
+
+    M  <op>;<op>;…            dictionary history        → <fact>;<fact>;… | <final state>
+    D  <op>;…                 deque history             → …
+    Q  <cap> <op>;…           request queue history     → …
+    DQ <cap1> <cap2> <op>;…   double queue history      → …
+    XM | XD | XQ <cap> | XDQ <c1> <c2>  <act>;<act>;…
+                              a schedule of the mutex-object machine (Golib/Conc/Mutex.lean) over that
+                              object: i<t>:<op> a<t> l<t> s<t> u<t> t<t>  (inv, acq, load, store, rel, ret)
+                              → ok <fact of each ret, in order>   |   stuck@<index>
+
+  dictionary ops  p<k>,<v> g<k> c<k> r<k> rf rl s e x
+  deque ops       af<x> al<x> rf rl s x
+  queue ops       p<x> f<x> n s x c<cap> g          (put, putForce, getNoWait, size, clear, setCapacity, getCapacity)
+  double queue    p1_<x> p2_<x> f1_<x> f2_<x> n s s1 s2 x c<c1>_<c2>
+-/
+import Golib.Conc.SeqSpec
+import Golib.Conc.Mutex
+import Driver.Common
+
+open Drv SeqSpec
+
+def factStr : Fact → String
+  | .val n => toString n
+  | .kv k v => s!"{k}:{v}"
+  | .unit => "-"
+
+def qretStr : Queue.Ret → String
+  | .bool b => if b then "t" else "f"
+  | .val x => toString x
+  | .int n => toString n
+  | .unit => "-"
+  | .blocked => "blocked"
+
+def dropPrefix (s : String) (n : Nat) : String := String.ofList (s.toList.drop n)
+
+def parseMOp (s : String) : Option MOp :=
+  match s with
+  | "rf" => some .remFirst
+  | "rl" => some .remLast
+  | "s" => some .size
+  | "e" => some .empty
+  | "x" => some .clear
+  | _ =>
+    match s.toList with
+    | 'p' :: rest =>
+      match (String.ofList rest).splitOn "," with
+      | [k, v] => do some (.put (← parseNat k) (← parseNat v))
+      | _ => none
+    | 'g' :: rest => (parseNat (String.ofList rest)).map .get
+    | 'c' :: rest => (parseNat (String.ofList rest)).map .has
+    | 'r' :: rest => (parseNat (String.ofList rest)).map .rem
+    | _ => none
+
+def parseDOp (s : String) : Option DOp :=
+  match s with
+  | "rf" => some .remFirst
+  | "rl" => some .remLast
+  | "s" => some .size
+  | "x" => some .clear
+  | _ =>
+    match s.toList with
+    | 'a' :: 'f' :: rest => (parseNat (String.ofList rest)).map .addFirst
+    | 'a' :: 'l' :: rest => (parseNat (String.ofList rest)).map .addLast
+    | _ => none
+
+def parseQOp (s : String) : Option Queue.Op :=
+  match s with
+  | "n" => some .getNoWait
+  | "s" => some .size
+  | "x" => some .clear
+  | "g" => some .getCapacity
+  | _ =>
+    match s.toList with
+    | 'p' :: rest => (parseNat (String.ofList rest)).map .put
+    | 'f' :: rest => (parseNat (String.ofList rest)).map .putForce
+    | 'c' :: rest => (parseInt (String.ofList rest)).map .setCapacity
+    | _ => none
+
+def parseDQOp (s : String) : Option Queue.DOp :=
+  match s with
+  | "n" => some .getNoWait
+  | "s" => some .size
+  | "s1" => some .size1
+  | "s2" => some .size2
+  | "x" => some .clear
+  | _ =>
+    match s.toList with
+    | 'p' :: '1' :: '_' :: rest => (parseNat (String.ofList rest)).map .put1
+    | 'p' :: '2' :: '_' :: rest => (parseNat (String.ofList rest)).map .put2
+    | 'f' :: '1' :: '_' :: rest => (parseNat (String.ofList rest)).map .putForce1
+    | 'f' :: '2' :: '_' :: rest => (parseNat (String.ofList rest)).map .putForce2
+    | 'c' :: rest =>
+      match (String.ofList rest).splitOn "_" with
+      | [a, b] => do some (.setCapacity (← parseInt a) (← parseInt b))
+      | _ => none
+    | _ => none
+
+def mstateStr (m : MSt) : String := listOf (fun e => s!"{e.1}:{e.2}") m
+def natsStr (l : List Nat) : String := listOf toString l
+
+/-- a sequential history -/
+def seqLine {σ Op Ret : Type} (step : σ → Op → σ × Ret) (init : σ) (parse : String → Option Op)
+    (showR : Ret → String) (showS : σ → String) (ops : String) : String :=
+  match (if ops == "-" || ops == "" then some [] else (ops.splitOn ";").mapM parse) with
+  | none => "bad-op"
+  | some os =>
+    let r := runSeq step init os
+    ";".intercalate (r.2.map showR) ++ " | " ++ showS r.1
+
+/-- a schedule of the mutex-object machine -/
+def parseAct {Op : Type} (parse : String → Option Op) (s : String) : Option (Conc.Act Op) :=
+  match s.toList with
+  | 'i' :: rest =>
+    match (String.ofList rest).splitOn ":" with
+    | [t, op] => do some (.inv (← parseNat t) (← parse op))
+    | _ => none
+  | 'a' :: rest => (parseNat (String.ofList rest)).map .acq
+  | 'l' :: rest => (parseNat (String.ofList rest)).map .load
+  | 's' :: rest => (parseNat (String.ofList rest)).map .store
+  | 'u' :: rest => (parseNat (String.ofList rest)).map .rel
+  | 't' :: rest => (parseNat (String.ofList rest)).map .ret
+  | _ => none
+
+def runIdx {σ Op Ret : Type} (step : σ → Op → σ × Ret) :
+    Conc.St σ Op Ret → List (Conc.Act Op) → Nat → Except Nat (Conc.St σ Op Ret)
+  | s, [], _ => .ok s
+  | s, a :: as, i =>
+    match Conc.next step s a with
+    | some s' => runIdx step s' as (i + 1)
+    | none => .error i
+
+def retsOf {Op Ret : Type} (showR : Ret → String) : List (Conc.Ev Op Ret) → List String → List String
+  | [], acc => acc
+  | .ret _ _ r :: rest, acc => retsOf showR rest (showR r :: acc)     -- log is newest first
+  | _ :: rest, acc => retsOf showR rest acc
+
+def machineLine {σ Op Ret : Type} (step : σ → Op → σ × Ret) (init : σ) (parse : String → Option Op)
+    (showR : Ret → String) (acts : String) : String :=
+  match (if acts == "-" || acts == "" then some [] else (acts.splitOn ";").mapM (parseAct parse)) with
+  | none => "bad-op"
+  | some as =>
+    match runIdx step (Conc.initSt init) as 0 with
+    | .error i => s!"stuck@{i}"
+    | .ok s => "ok " ++ ";".intercalate (retsOf showR s.log [])
+
+def qShow (q : Queue.Q) : String := natsStr q.items ++ "/" ++ toString q.cap
+def dqShow (d : Queue.DQ) : String := qShow d.q1 ++ " " ++ qShow d.q2
+
+def answer (line : String) : String :=
+  match line.splitOn " " with
+  | ["M", ops] => seqLine mstep [] parseMOp factStr mstateStr ops
+  | ["D", ops] => seqLine dstep [] parseDOp factStr natsStr ops
+  | ["Q", cap, ops] =>
+    match parseInt cap with
+    | some c => seqLine qstep ⟨[], c⟩ parseQOp qretStr qShow ops
+    | none => "bad-op"
+  | ["DQ", c1, c2, ops] =>
+    match parseInt c1, parseInt c2 with
+    | some a, some b => seqLine dqstep ⟨⟨[], a⟩, ⟨[], b⟩⟩ parseDQOp qretStr dqShow ops
+    | _, _ => "bad-op"
+  | ["XM", acts] => machineLine mstep [] parseMOp factStr acts
+  | ["XD", acts] => machineLine dstep [] parseDOp factStr acts
+  | ["XQ", cap, acts] =>
+    match parseInt cap with
+    | some c => machineLine qstep ⟨[], c⟩ parseQOp qretStr acts
+    | none => "bad-op"
+  | ["XDQ", c1, c2, acts] =>
+    match parseInt c1, parseInt c2 with
+    | some a, some b => machineLine dqstep ⟨⟨[], a⟩, ⟨[], b⟩⟩ parseDQOp qretStr acts
+    | _, _ => "bad-op"
+  | _ => "bad-op"
+
+def main : IO Unit := statelessLoop answer
